@@ -363,6 +363,25 @@ static const uint8_t R[64] = {
   2, 2, 2, 2, 2, 2, 2, 2, 3, 3, 4, 2, 1, 1, 2, 0,
 };
 
+/* Lowest and highest code length reached while decoding a pattern, relative to
+   the initial length and biased like R[].  bzip2 checks the code length after
+   every single step, so a pattern whose running length leaves the valid range
+   must be rejected even if it returns there before the pattern ends.
+*/
+static const uint8_t Rmin[64] = {
+  3, 3, 3, 3, 3, 3, 3, 3, 3, 3, 3, 3, 3, 3, 3, 3,
+  3, 3, 3, 3, 3, 3, 3, 3, 3, 3, 3, 3, 3, 3, 3, 3,
+  3, 3, 3, 3, 3, 3, 3, 3, 3, 3, 3, 3, 3, 3, 3, 2,
+  2, 2, 2, 2, 2, 2, 2, 2, 2, 2, 2, 2, 1, 1, 1, 0,
+};
+
+static const uint8_t Rmax[64] = {
+  3, 3, 3, 3, 3, 3, 3, 3, 3, 3, 3, 3, 3, 3, 3, 3,
+  3, 3, 3, 3, 3, 3, 3, 3, 3, 3, 3, 3, 3, 3, 3, 3,
+  4, 4, 4, 4, 4, 4, 4, 4, 5, 5, 6, 5, 4, 4, 4, 4,
+  3, 3, 3, 3, 3, 3, 3, 3, 3, 3, 4, 3, 3, 3, 3, 3,
+};
+
 
 #define DECLARE unsigned w; uint64_t v; const uint32_t *next, *limit,   \
                                           *tt_limit; uint32_t *tt
@@ -581,10 +600,10 @@ retrieve(struct decoder_state *restrict ds, struct bitstream *bs)
       while (rs->j < rs->alpha_size) {
         unsigned k = PEEK(6u);
 
-        rs->code_len[rs->j] += R[k];
-        if (unlikely(rs->code_len[rs->j] < 3 + MIN_CODE_LENGTH ||
-                     rs->code_len[rs->j] > 3 + MAX_CODE_LENGTH))
+        if (unlikely(rs->code_len[rs->j] + Rmin[k] < 3 + MIN_CODE_LENGTH ||
+                     rs->code_len[rs->j] + Rmax[k] > 3 + MAX_CODE_LENGTH))
           return ERR_DELTA;
+        rs->code_len[rs->j] += R[k];
         rs->code_len[rs->j] -= 3;
         k = L[k];
         if (k != 6u) {
